@@ -260,6 +260,7 @@ func c16Ctx(env *c16Env) *plush.Context {
 	rec := newT("r")
 	rec.Next = &T{Name: "n"}
 	ctx.Set("rec", rec)
+	ctx.Set("recs", []T{newT("r0"), newT("r1")})
 	ctx.Set("one1", []interface{}{"only"})
 	ctx.Set("nested2", []interface{}{[]interface{}{1, 2}, []interface{}{3}})
 	ctx.Set("xs", []interface{}{"x0", "x1", "x2", "x3", "x4", "x5", "x6", "x7", "x8", "x9"})
@@ -467,6 +468,9 @@ func c16Run(b *core.B) {
 		{"body-let-shadows-parameter", `<% let f = fn(a) { let a = a + 1
  return a } %><% let a = 10 %><%= f(a) %>,<%= a %>,<%= f(1) %>`, "11,10,2"},
 		{"rebinding-a-function-name", `<% let f = fn(n) { return n + 1 } %><%= f(1) %><% let f = fn(n) { return n + 100 } %>|<%= f(1) %>`, "2|101"},
+		// the value of a call is a value like any other: a path may go on after it
+		{"path-after-the-call", `<% let same = fn(x) { return x } %><%= same(rec).Name %>|<%= same(rec).Next.Name %>|<%= same(rec).Label() %>|<%= same(rec).Tags[1] %>|<%= len(same(rec).Tags) %>`, "r|n|L:r|t1|2"},
+		{"path-after-the-call-of-a-selecting-function", `<% let nth = fn(i) { return recs[i] } %><%= nth(1).Name %>|<%= nth(0).Name %>|<%= nth(1).Add(nth(0).N, 1) %>`, "r1|r0|8"},
 		// the returned value comes back as it is, whatever its shape: arrays of no, one or nested elements
 		{"returns-one-element-array", `<% let one = fn(x) { return [x] } %><%= len(one(5)) %>|<%= one(5)[0] %>|<% let o = one("q") %><%= for (e) in o { %>(<%= e %>)<% } %>`, "1|5|(q)"},
 		{"returns-empty-array", `<% let none = fn() { return [] } %><%= len(none()) %>|<%= none() == nil %>`, "0|false"},
